@@ -433,7 +433,7 @@ class FLAE:
         _assert_acc_mag_inputs(self.acc, self.mag)
         acc, mag = np.copy(self.acc), np.copy(self.mag)
         if acc.ndim < 2:
-            return self.estimate(acc, mag)
+            return self.estimate(acc, mag, method=self.method)
         num_samples = len(acc)
         return np.array([self.estimate(acc[t], mag[t], method=self.method) for t in range(num_samples)])
 
